@@ -3,10 +3,12 @@
 SX differential. Read programs (attribute reads, navigation, collection iteration / len / count / in /
 is_empty, key look-ups, entity scans - interleaved with modifications) are explored as histories of
 depth <= 2 (thorough 3) on the populated fixture with canonical-state deduplication, and every history
-is replayed under each loading strategy:
+is replayed under each loading strategy (reads include r_nplus1: scan an entity and read the
+same collection of every object):
     default | every non-key scalar attribute lazy=True | to-one relationship attributes lazy=True |
     nplus1_threshold=0 (always batch) | nplus1_threshold=None (never batch) |
-    provider.max_params_count forced to 2 (batch splitting) | prefetch() of every relation first
+    provider.max_params_count forced to 2 (batch splitting) | always batch with max_params_count 1 (every batch
+    overflows) | prefetch() of every relation first
 The observation sequences must be identical; only the number of statements may differ (recorded as
 vacuity guard that the strategies really differ).
 
@@ -27,17 +29,18 @@ LEVEL = 'model_checking'
 
 RELS = [dict(rel='o2m'), dict(rel='o2m', req=True), dict(rel='o2o'), dict(rel='o2o', req=True), dict(rel='m2m'),
         dict(rel='sym_o2o'), dict(rel='sym_m2m'), dict(rel='self_o2m'), dict(rel='o2m', inherit=True), dict(rel='m2m', inherit=True)]
-STRATEGIES = ['default', 'lazy', 'lazyrel', 'np0', 'npNone', 'maxparams2', 'prefetch']
+STRATEGIES = ['default', 'lazy', 'lazyrel', 'np0', 'npNone', 'maxparams2', 'np0-maxparams1', 'prefetch']
 
 def build(base, strategy):
     from vf.models import catalog
     kw = dict(base)
     if strategy == 'lazy': kw['lazy'] = True
     elif strategy == 'lazyrel': kw['lazy_rel'] = True
-    elif strategy == 'np0': kw['np'] = 0
+    elif strategy in ('np0', 'np0-maxparams1'): kw['np'] = 0
     elif strategy == 'npNone': kw['np'] = None
     env = sx.Env(catalog.make(**kw))
     if strategy == 'maxparams2': env.db.provider.max_params_count = 2
+    if strategy == 'np0-maxparams1': env.db.provider.max_params_count = 1     # every batch overflows: one owner per statement (seeded change C23-5)
     return env
 
 WARMUPS = ['nav', 'scan']
@@ -74,9 +77,20 @@ def _op_prefetch_all(self):
         list(q)
 sx.Exec.op_prefetch_all = _op_prefetch_all
 
+def _op_r_nplus1(self, ename, attr):
+    """the N+1 program: scan an entity and read the same collection of every object (batch loading with overflow)"""
+    out = []
+    for o in sorted(self.env.E[ename].select(), key=lambda o: repr(o._pk_)):
+        out.append([self.cv(o), sorted(self.cv(list(getattr(o, attr))))])
+    return out
+sx.Exec.op_r_nplus1 = _op_r_nplus1
+
 def alphabet(env):
     reads = [r for r in env.reads() if r[0] in ('r_attr', 'r_citer', 'r_clen', 'r_ccount', 'r_cempty', 'r_cin', 'r_get', 'r_all', 'r_todict', 'r_cselect')
              and not (r[0] == 'r_get' and r[1].endswith(':3'))]
+    for name, e in sorted(env.db.entities.items()):
+        for a in e._new_attrs_:
+            if a.is_collection: reads.append(('r_nplus1', name, a.name))
     mods = [o for o in env.ops() if (o[0] in ('add', 'remove', 'delete', 'clear')) or
             (o[0] == 'set' and isinstance(o[3], tuple)) or (o[0] == 'set' and o[3] is None and o[2] not in ('n', 'u', 'm', 'x', 'y', 'z'))
             or (o[0] == 'create' and o[2] == 3 and 'u1' not in o[3].values()) or o[0] in ('flush', 'commit')]
@@ -166,8 +180,8 @@ def run(ctx):
     ctx.guard('strategies whose statement count differs from default',
               len([s for s in STRATEGIES[1:] if c.get('statements:' + s, 0) != base]), 3)
     ctx.guard('warm (second-session) runs', c.get('warm_runs', 0), 1000)
-    ctx.cov['bounds'] = ('read/modify histories of depth <= %d on the populated fixture of 10 relationship models x 7 loading strategies, '
-                         'each also as second session after a cache-emptying restart + warm-up session (nav, scan) under all 7 strategies' % (2 if ctx.quick else 3))
+    ctx.cov['bounds'] = ('read/modify histories of depth <= %d on the populated fixture of 10 relationship models x 8 loading strategies, '
+                         'each also as second session after a cache-emptying restart + warm-up session (nav, scan) under all 8 strategies' % (2 if ctx.quick else 3))
     ctx.assume('SQLite only; prefetch strategy = a full prefetching scan of every entity at the start of the session')
     return dict(states=agg['states'], transitions=agg['transitions'],
                 traces_validated_against_impl=agg['executions'] + c.get('strategy_runs', 0) + c.get('warm_runs', 0))
